@@ -2,6 +2,7 @@
   Proofs.C03TravModel — from the flat traversal theorem to `Model.Table.next`.
 -/
 import GoluaVerif.Proofs.C03Trav
+import GoluaVerif.Proofs.C03Migrate
 namespace GoluaVerif.Model.Table
 open GoluaVerif.Spec (Key Val Map NextRes)
 
@@ -190,11 +191,16 @@ theorem flat_keys_distinct (t : Mixed) (inv : Inv hash t) : KeysDistinct ((flat 
     have := hinv.nodup _ hil _ hjl hne heq
     omega
 
-/-- any number of `remove` / `reset` steps: what a traversal tolerates between two calls of `next` -/
+/-- what a traversal tolerates between two calls of `next`: any number of steps that clear a field
+    (`remove`), assign an existing field through `Table.Reset` (`reset`, a no-op on an absent key) or
+    assign an EXISTING field through `Table.Set` (`insert` on a key that is present — also when the hash
+    part is full: it no longer grows) -/
 inductive Evolves : Mixed → Mixed → Prop
   | refl (t : Mixed) : Evolves t t
   | remove (t t1 t2 : Mixed) (k : Key) (w : Bool) : remove hash t k = some (t1, w) → Evolves t1 t2 → Evolves t t2
   | reset (t t1 t2 : Mixed) (k : Key) (v : Val) (w : Bool) : reset hash t k v = some (t1, w) → Evolves t1 t2 → Evolves t t2
+  | set (t t1 t2 : Mixed) (k : Key) (v : Val) : (abs t k.norm).isSome = true → insert hash t k v = some t1 →
+      Evolves t1 t2 → Evolves t t2
 
 theorem samePositions_refl (t : Mixed) : SamePositions t t := ⟨rfl, rfl, rfl, rfl⟩
 
@@ -218,14 +224,20 @@ theorem evolves_inv {t t' : Mixed} (ev : Evolves hash t t') (inv : Inv hash t) :
     cases e'
     obtain ⟨i2, sp2⟩ := ih i1
     exact ⟨i2, samePositions_trans sp sp2⟩
+  | set t t1 t2 k v hp e _ ih =>
+    obtain ⟨t1', e', i1, _, sp⟩ := insert_spec hash (hashedInsertOK hash) (arrayMigrationOK hash) t inv k v
+    rw [e] at e'
+    cases e'
+    obtain ⟨i2, sp2⟩ := ih i1
+    exact ⟨i2, samePositions_trans (sp hp) sp2⟩
 
 /-- a `next`-driven traversal: `states` are the tables at the successive calls of `next`, between two
-    calls the table evolves by `remove` / `reset` only; the cursor is the key returned last.
-    `Safe` excludes the two situations in which `mixedTable.next` of the current code goes wrong. -/
+    calls the table evolves by clearing / assigning existing fields only (`Evolves`); the cursor is the
+    key returned last -/
 inductive Trav : Mixed → Option Key → List Mixed → List (Key × Val) → Prop
-  | done (t : Mixed) (k : Option Key) : Safe t k → next hash t k = some .done → Trav t k [t] []
+  | done (t : Mixed) (k : Option Key) : next hash t k = some .done → Trav t k [t] []
   | step (t t' : Mixed) (k : Option Key) (k' : Key) (v : Val) (states : List Mixed) (visited : List (Key × Val)) :
-      Safe t k → next hash t k = some (.item k' v) → Evolves hash t t' → Trav t' (some k') states visited →
+      next hash t k = some (.item k' v) → Evolves hash t t' → Trav t' (some k') states visited →
       Trav t k (t :: states) ((k', v) :: visited)
 
 /-- the position after the cursor -/
@@ -253,16 +265,16 @@ theorem trav_flatRun (t : Mixed) (k : Option Key) (states : List Mixed) (visited
       FlatRun ((flat t).map (·.1)) s (states.map flat) visited ∧
       (∀ st ∈ states, Inv hash st ∧ (flat st).map (·.1) = (flat t).map (·.1)) := by
   induction tr with
-  | done t k hsafe hn =>
+  | done t k hn =>
     intro s hs
-    rw [next_refines hash t inv k hsafe, flatNext_start _ k s hs] at hn
+    rw [next_refines hash t inv k, flatNext_start _ k s hs] at hn
     refine ⟨FlatRun.done s (flat t) rfl (Option.some.inj hn), ?_⟩
     intro st hst
     simp only [List.mem_singleton] at hst
     subst hst; exact ⟨inv, rfl⟩
-  | step t t' k k' v states visited hsafe hn ev _ ih =>
+  | step t t' k k' v states visited hn ev _ ih =>
     intro s hs
-    rw [next_refines hash t inv k hsafe, flatNext_start _ k s hs] at hn
+    rw [next_refines hash t inv k, flatNext_start _ k s hs] at hn
     have hn' := Option.some.inj hn
     obtain ⟨inv', sp⟩ := evolves_inv hash ev inv
     have hkeys := flat_keys_same t t' sp
@@ -346,8 +358,8 @@ theorem trav_visited_present (t : Mixed) (k : Option Key) (states : List Mixed) 
     states.length = visited.length + 1 ∧
     ∀ i (hi : i < visited.length) (hs : i < states.length), abs states[i] visited[i].1 = some visited[i].2 := by
   induction tr with
-  | done t k _ _ => exact ⟨rfl, fun i hi => absurd hi (Nat.not_lt_zero _)⟩
-  | step t t' k k' v states visited hsafe hn ev _ ih =>
+  | done t k _ => exact ⟨rfl, fun i hi => absurd hi (Nat.not_lt_zero _)⟩
+  | step t t' k k' v states visited hn ev _ ih =>
     obtain ⟨inv', _⟩ := evolves_inv hash ev inv
     obtain ⟨hl, hrest⟩ := ih inv'
     refine ⟨by simp [hl], ?_⟩
@@ -355,7 +367,7 @@ theorem trav_visited_present (t : Mixed) (k : Option Key) (states : List Mixed) 
     cases i with
     | zero =>
       simp only [List.getElem_cons_zero]
-      rw [next_refines hash t inv k hsafe] at hn
+      rw [next_refines hash t inv k] at hn
       have hn' := Option.some.inj hn
       -- the answer of flatNext is a scan of a suffix of the flat view
       have : ∃ s, flatNext (flat t) (k.map Key.norm) = scan ((flat t).drop s) := by
@@ -376,13 +388,13 @@ theorem trav_visited_present (t : Mixed) (k : Option Key) (states : List Mixed) 
 
 /-- `next k` stays defined for a key returned by the traversal, also after the key has been cleared -/
 theorem next_defined_after_update (t t' : Mixed) (inv : Inv hash t) (k : Option Key) (k' : Key) (v : Val)
-    (hsafe : Safe t k) (hn : next hash t k = some (.item k' v)) (ev : Evolves hash t t') (hsafe' : Safe t' (some k')) :
+    (hn : next hash t k = some (.item k' v)) (ev : Evolves hash t t') :
     ∃ r, next hash t' (some k') = some r ∧ r ≠ .invalid := by
   obtain ⟨inv', sp⟩ := evolves_inv hash ev inv
-  rw [next_refines hash t' inv' (some k') hsafe']
+  rw [next_refines hash t' inv' (some k')]
   refine ⟨_, rfl, ?_⟩
   -- the key returned has a position in `t`, hence (same keys) in `t'`
-  rw [next_refines hash t inv k hsafe] at hn
+  rw [next_refines hash t inv k] at hn
   have hn' := Option.some.inj hn
   have : ∃ s, flatNext (flat t) (k.map Key.norm) = scan ((flat t).drop s) := by
     cases k with
